@@ -18,9 +18,9 @@ CHECKS = {
  "C13": ("HIST", "property testing: frame condition (table before == after unless replied) over generated messages of every type", "exploration",
          "For every generated message of any type / server-id kind on generated lease states: no reply => table unchanged; reply => only for DISCOVER/REQUEST meant for us, only the yiaddr row touched, header echoed, server-id ours.",
          "Malformed server-id lengths and server-id inside DISCOVER are unconstrained (statement silent).", "3/C13"),
- "C18": ("HIST", "differential property testing (interrupted vs uninterrupted twin) + generated old-schema databases", "fault_enumeration",
+ "C18": ("HIST", "differential property testing (interrupted vs uninterrupted twin) + generated old-schema databases + fault injection at enumerated crash points (SIGKILL at every write-like call on the database file and its journal, via strace) and at sampled kill instants on the wire", "fault_enumeration",
          "Reopen at generated split points of generated histories is indistinguishable from an uninterrupted twin; generated v0/v1 databases keep all rows, newer versions are refused unmodified.",
-         "Fault points are sampled (generated), not exhaustive: reopen points in-process, SIGKILL instants (quick 12, thorough 300) against the real erbium-dhcp on the wire tier of the same command. Torn writes inside one SQLite commit are not simulated (relies on SQLite's atomic commit).", "3/C18"),
+         "Enumerated completely: the crash points between write-like system calls on the database file and its rollback journal for a few scripted allocation sequences, from the moment the file is opened (quick 3 scripts / about 90 points, thorough 6). Sampled: reopen points in generated histories, SIGKILL instants (quick 12, thorough 300) against the real erbium-dhcp on the wire. Not simulated: torn writes inside one write call, loss of unsynced data (power failure). The crash-points tier needs strace/ptrace; where that is refused it is recorded as unavailable.", "3/C18"),
  "C20": ("HIST", "property testing: gauges vs harness count after every step of generated histories", "exploration",
          "After every step of every generated history (and on the empty store) the active/expired gauges equal the harness's own count of rows by expiry.",
          "Rows within 1 s of now are skipped (boundary ambiguous at one-second granularity). The HTTP listing and the /metrics gauges are private to the full binary and are decided by the wire tier of the same command (strict JSON parse, bijection with the rows read from the same SQLite file, hostile client-id/host-name bytes).", "3/C20"),
@@ -63,7 +63,7 @@ CHECKS = {
          "Trusted: harness decoder/encoder, scripted upstream. TCP-path cases are run one at a time (concurrency on the upstream TCP connection belongs to C07); a relayed REFUSED may be silenced by the UDP rate limiter (counted). Needs the private network namespace.", "3/C03"),
  "C07": ("WIRE-DNS", "fault enumeration + generated concurrent schedules on the wire: enumerated upstream loss patterns, generated delay/duplication/id-mismatch/truncation scripts, all listener families", "fault_enumeration",
          "Each query of every generated concurrent set gets exactly one response, its own, from the address it was sent to; SERVFAIL iff the upstream never answered; the loss patterns over the upstream transmissions are enumerated (quick: <= 2 losses and all lost; thorough: all 32).",
-         "The harness owns the external schedule (arrival order, upstream delays, losses) but not tokio's task interleaving inside the server. Bounded time = within 60 s, derived from the server's own back-off.", "3/C07"),
+         "The harness owns the external schedule (arrival order, upstream delays, losses) but not tokio's task interleaving inside the server. Bounded time = within 60 s, derived from the server's own back-off. Also driven: upstream TCP replies arriving in two segments while queries keep arriving, 256 queries outstanding on the one upstream TCP connection (16-bit id space). Behaviour that only shows after the server's own 120 s idle timers (a TCP-path query after more than two minutes of silence) is exercised by the thorough tier only; the quick tier cannot wait that long.", "3/C07"),
  "C15": ("WIRE-DNS", "model-based + metamorphic property testing on the wire: generated route tables with one scripted upstream per route, reference longest-suffix model, permutation and letter-case relations", "exploration",
          "For every generated route table (as written and permuted) and name: forge => NXDOMAIN and no upstream asked; forward+RD => own answer from exactly the longest-suffix route's upstream; forward without RD => REFUSED and nobody asked; no route => SERVFAIL; identical outcomes under permutation.",
          "Ambiguous tables (same suffix in two routes) are not generated. Needs the private network namespace.", "3/C15"),
